@@ -176,6 +176,8 @@ class Model:
             from .normalise import propagate_fresh_constants, specialise_fresh_optional_params
             self.inlined += propagate_fresh_constants(self.modules)
             self.inlined += specialise_fresh_optional_params(self.modules)
+            from .normalise import fold_fresh_constant_attributes
+            self.inlined += fold_fresh_constant_attributes(self.modules)
             from .normalise import canonical_string_formatting
             nf = canonical_string_formatting(self.modules)
             split_conditional_expressions(self.modules)
